@@ -1,11 +1,12 @@
 (* C15 property theorems: statements only, each closed by `exact`.
 
    The model is parametrised by `cfg` = which repairs the code contains.  `cfg_now` is /repo as it
-   stands (the four defects of the snapshot 75ee8d3 are repaired: 1e4dc27, c4fcf7f, ab776e6, 1799c30),
-   `cfg_snapshot` the historical snapshot, `cfg_fixed` also contains the two proposed repairs.
-   Statements named `_hist_...` (refuted / partial for drain = false, fix flags false) describe the
-   historical snapshot and are kept so that a regression of a repair has a proved description;
-   everything else describes /repo as it stands or any cfg. *)
+   stands: the six defects of the snapshot 75ee8d3 are repaired (1e4dc27, c4fcf7f, ab776e6, 1799c30,
+   1298d8e, 1b618eb).  `cfg_snapshot` / `cfg_round1` are historical trees.
+   Statements named `_hist_...` / `..._legacy_refuted` (refuted / partial for drain = false or fix flags
+   false) describe those historical trees and are kept so that a regression of a repair has a proved
+   description; everything else describes /repo as it stands or any cfg.  One statement about /repo
+   today is refuted: `C15_free_right_refuted` (known finding free-sum-right-of-combined). *)
 From Coq Require Import ZArith List Bool Arith.
 From PAFC15 Require Import Model Proofs1 Proofs2 Proofs3 Witness.
 Import ListNotations.
@@ -44,7 +45,7 @@ Theorem C15_single_plus_free_raises : forall (c : cfg) (j : nat) (h : bool) (e :
 Proof. exact single_plus_free_raises. Qed.
 
 (* ... but (a + b) + (c + d).with_free_parameters(p) is accepted silently (known finding, no repair flag) *)
-Theorem C15_free_right_refuted : exists e : expr, eval cfg_fixed e <> spec_struct e.
+Theorem C15_free_right_refuted : exists e : expr, eval cfg_now e <> spec_struct e.
 Proof. exact free_right_refuted. Qed.
 
 Theorem C15_hist_flatten_order_refuted :
@@ -162,12 +163,19 @@ Theorem C15_free_params : forall (free : list nat) (n : nat) (m : list nat), 1 <
   prior_count (modify_free free n m) = length (free_in free m) * n + length (shared_in free m).
 Proof. exact free_count. Qed.
 
-(* end to end: the fitted model of e.with_free_parameters(free) for any bracketing e *)
+(* end to end: the fitted model of e.with_free_parameters(free) for any bracketing e: analysis i in the
+   order written reads its own model (with_model) or the default one, with its own copy of the free priors *)
 Theorem C15_free_params_of_expr : forall (e : expr) (default : list nat) (own : list (list nat)) (free : list nat),
   nofree e = true -> is_leaf e = false ->
   fitted_models cfg_now (kind_of (eval cfg_now (Free e))) (items_of (eval cfg_now (Free e))) default own free
-  = modify_free free (length (leaves e)) default.
+  = modify_free_own free default own (spec_items KFree (leaves e)).
 Proof. exact fitted_free_end_to_end. Qed.
+
+Theorem C15_free_params_of_plain_expr : forall (e : expr) (default : list nat) (own : list (list nat)) (free : list nat),
+  nofree e = true -> is_leaf e = false -> any_model (leaves e) = false ->
+  fitted_models cfg_now (kind_of (eval cfg_now (Free e))) (items_of (eval cfg_now (Free e))) default own free
+  = modify_free free (length (leaves e)) default.
+Proof. exact fitted_free_plain_end_to_end. Qed.
 
 Theorem C15_own_model_i : forall (default : list nat) (own : list (list nat)) (its : list item) (i : nat) (it : item),
   nth_error its i = Some it ->
@@ -178,11 +186,15 @@ Theorem C15_own_models_count : forall (default : list nat) (own : list (list nat
   prior_count (modify_models default own its) = length (nodup Nat.eq_dec (concat (map (base_model default own) its))).
 Proof. exact models_count. Qed.
 
-(* free parameters over analyses with their own models: /repo drops the own models (known finding);
-   the proposed repair frees inside each analysis' own model *)
-Theorem C15_free_own_refuted : exists (its : list item) (default : list nat) (own : list (list nat)) (free : list nat),
-  fitted_models cfg_now KFree its default own free <> modify_free_own free default own its.
-Proof. exact free_own_refuted. Qed.
+(* free parameters over analyses with their own models: /repo today frees inside each analysis' own
+   model (1298d8e); before that repair the own models were dropped *)
+Theorem C15_free_own : forall (its : list item) (default : list nat) (own : list (list nat)) (free : list nat),
+  fitted_models cfg_now KFree its default own free = modify_free_own free default own its.
+Proof. exact fitted_free_own_now. Qed.
+
+Theorem C15_hist_free_own_legacy_refuted : exists (its : list item) (default : list nat) (own : list (list nat)) (free : list nat),
+  fitted_models cfg_round1 KFree its default own free <> modify_free_own free default own its.
+Proof. exact free_own_legacy_refuted. Qed.
 
 Theorem C15_free_own_model_i : forall (free default : list nat) (own : list (list nat)) (its : list item) (i : nat) (it : item),
   nth_error its i = Some it ->
